@@ -104,6 +104,7 @@ type cRun struct {
 	Ops      []cOp      `json:"ops"`
 	Final    []string   `json:"final"`
 	FinalRes []string   `json:"final_res"`
+	Storage  []string   `json:"storage"` // after the final reads: answers of `drain`, `tree` (small-step replay only)
 	Hang     bool       `json:"hang"`
 	Stacks   string     `json:"stacks,omitempty"`
 	Cands    [][]int    `json:"cands"` // candidate linearizations: indices into Ops
@@ -290,6 +291,9 @@ func runSchedule(dir string, sc cScenario, schedule []string, rng *seqRng) cRun 
 		for _, l := range sc.Final {
 			run.FinalRes = append(run.FinalRes, im.exec(strings.Fields(l), rng))
 		}
+		for _, l := range []string{"drain", "tree"} {
+			run.Storage = append(run.Storage, im.exec(strings.Fields(l), rng))
+		}
 		im.close()
 	}
 	s.mu.Lock()
@@ -389,6 +393,10 @@ func concScenarios(which string) []cScenario {
 			{Name: "read-vs-overwrite-gc", Roots: 1, Setup: []string{"s 0 " + k1 + " 300"},
 				Actors: map[string][]string{"R": {"g 0 " + k1, "k 0"}, "W": {"s 0 " + k1 + " 301"}, "G": {"gc"}},
 				Order: []string{"R", "W", "G"}, Points: map[string]bool{"uget.afterLookup": true, "ukeys.afterLookup": true, "gc.horizon": true, "gc.collected": true},
+				Final: []string{"g 0 " + k1}},
+			{Name: "commit-window-gc", Roots: 1, Setup: []string{"s 0 " + k1 + " 300"},
+				Actors: map[string][]string{"T": {"b 1 SER", "g 1 " + k1, "c 1"}, "W": {"s 0 " + k1 + " 301"}, "G": {"gc"}},
+				Order: []string{"T", "W", "G"}, Points: map[string]bool{"utx.start": true, "gc.horizon": true, "gc.collected": true},
 				Final: []string{"g 0 " + k1}},
 			{Name: "ru-read-vs-rollback", Roots: 1, Setup: []string{"s 0 " + k1 + " 300"},
 				Actors: map[string][]string{"R": {"b 1 RU", "g 1 " + k1, "c 1"}, "W": {"b 2 RC", "s 2 " + k1 + " 301", "r 2", "drain"}},
